@@ -11,6 +11,7 @@ import Flowjaxv.Driver.ArgCheck
 import Flowjaxv.Driver.Families
 import Flowjaxv.Driver.Bisection
 import Flowjaxv.Driver.Train
+import Flowjaxv.Driver.Vectorize
 /-!
 Model driver: `lake env lean --run Driver.lean < ops.txt`.  One op per line in, one line out
 (`ERR <msg>` when the model rejects the op).
@@ -61,6 +62,15 @@ def dispatch (line : String) : String :=
       | "nval" => nval args
       | "addbatch" => addbatch args
       | "fitdata" => fitdata args
+      | "sig" => sig args
+      | "parsesig" => parsesig args
+      | "bshape" => bshape args
+      | "leadshape" => leadshape args
+      | "outshape" => outshape args
+      | "outshapef" => outshapef args
+      | "keyshape" => keyshape args
+      | "pair" => pair args
+      | "checkshapes" => checkshapes args
       | "ctor" => ctor args
       | "permute" => permute args
       | "permvalid" => permvalid args
